@@ -793,6 +793,11 @@ def rule_chunks(ctx):
         for loc, nm in sorted(lists.items()):
             res.instance("%s : block list `%s`" % (key, nm))
             bad = [y for y in walk(fn["body"]) if y.get("k") == "MethodCall" and peel_refs(y["recv"]).get("local") == loc and y["name"] in ("truncate", "pop", "clear", "drain", "remove", "swap_remove", "retain", "resize", "split_off", "dedup")]
+            # a block that is taken out with `remove(i)` and put back with `insert(i, ..)` at the same index in the same loop body
+            # leaves the list as it was for the next iteration
+            put_back = [y for y in walk(fn["body"]) if y.get("k") == "MethodCall" and peel_refs(y["recv"]).get("local") == loc and y["name"] == "insert" and len(y["args"]) == 2]
+            if bad and all(b_["name"] == "remove" for b_ in bad) and len(put_back) == len(bad) and all(r.e(peel_refs(b_["args"][0])) == r.e(peel_refs(p_["args"][0])) and (p_.get("ln") or 0) > (b_.get("ln") or 0) for b_, p_ in zip(bad, put_back)):
+                bad = []
             if bad and bad[0]["name"] == "split_off":
                 res.undecided("%s : block-list-split:%s" % (key, nm), "`%s`: whether the split-off blocks all come back is not decided" % r.e(bad[0])[:40], fn_loc(fn, bad[0].get("ln")))
             elif bad:
